@@ -40,8 +40,8 @@ CHECKS = {
    "exact uniformity sub-checks assume one next_u64 per draw and a monotone 52-bit mapping and skip themselves (counted) if that changes",
    TECH + ": scripted-generator seam, seeded histories, exhaustive small-m enumeration"),
  "C18": ("exploration",
-   "every Sig implementation on seeded values (empty, 1, odd, large vectors; multi-byte strings), directly and as ProbMinHash3aSha keys, executed under a tracking / poisoning / quarantining global allocator: bytes must equal the native-endian representation, no second free, no layout mismatch, freed-memory poison never returned; thorough tier adds Miri (abstract-machine simulator, many seeds)",
-   "memory errors are observed at the allocator seam (and by Miri in the thorough tier); reads of freed memory are seen through the poison pattern failing the byte oracle",
+   "every Sig implementation on seeded values (empty, 1, odd, large vectors; multi-byte strings), directly and as ProbMinHash3aSha keys, executed under a tracking / poisoning / quarantining global allocator: bytes must equal the native-endian representation, no second free, no layout mismatch, freed-memory poison never returned; both tiers also run the workload under Miri (abstract-machine simulator: 1 x 4 seeds quick, 6 x 16 thorough)",
+   "memory errors are observed at the allocator seam and by Miri (if Miri cannot run the quick tier says so and relies on the native run); reads of freed memory are seen through the poison pattern failing the byte oracle",
    TECH + ": allocator seam (tracking/poisoning/quarantine) under seeded workloads, Miri in thorough"),
  "C04": ("exploration",
    "seeded search over delivery schedules (reorder, duplicate, late re-delivery, chunking) for all five unweighted sketchers, 10 type instantiations x 3 element types x 7 hashers; oracle = exact equality of the real sketcher's final state with a fresh real sketcher fed the canonical delivery; sampling, not proof",
